@@ -41,6 +41,8 @@ def run(ctx):
     declared_key_material_fully_consumed(ctx, P)
     mpi_writer_refuses_what_the_reader_refuses(ctx, P)
     mpi_constructors_normalise(ctx, P)
+    from rules import tables as _t
+    _t.revocation_class_decoded_exactly(ctx, P)
     s2k_specifier_length_agrees(ctx, P)
     stored_length_encoding(ctx, P)
     stored_length_checked_against_data(ctx, P)
